@@ -17,7 +17,8 @@ Import ListNotations.
 Open Scope Z_scope.
 
 Inductive obs := OLen (x : ident)        (* mon.write(len(x)) *)
-               | OFlash (x : ident).     (* led.flash_pattern(x) *)
+               | OFlash (x : ident)      (* led.flash_pattern(x) *)
+               | OGlyph (e : pexpr).     (* lcd.glyph(slot, e): the eight rows, int(entry) each (tagged as a tuple) *)
 
 Inductive stmt :=
 | SAssign (x : ident) (e : pexpr)        (* x = e *)
@@ -47,6 +48,12 @@ Definition robs (o : obs) (rho : env) : option pval :=
               | None => None end
   | OFlash x => match lookup x rho with
                 | Some (VList l) | Some (VTuple l) => Some (VList l)
+                | _ => None end
+  | OGlyph e => match peval rho e with
+                | Ok (VList l) | Ok (VTuple l) =>
+                    match glyph_rows l with
+                    | Some zs => if Nat.eqb (length zs) 8 then Some (VTuple (map VInt zs)) else None
+                    | None => None end
                 | _ => None end
   end.
 
@@ -229,6 +236,11 @@ Definition tsimple (s : stmt) (te : tenv) (st : store) : tres :=
       | Some (TVal (VTuple cur)) =>
           if forallb is_num_entry cur then Some (te, st, [SEmit (VList cur)], true) else None
       | _ => None                       (* "flash_pattern requires a literal pattern list" *)
+      end
+  | SObs (OGlyph e) =>
+      match glyph_bitmap c e with       (* _eval_const(bitmap_arg, vars): names are read from the environment *)
+      | Folded zs => Some (te, st, [SEmit (VTuple (map VInt zs))], in_guard c e)
+      | _ => None                       (* "glyph bitmap must be a list of integers" / "must contain 8 rows" *)
       end
   | SEmit _ => Some (te, st, [s], false)
   | _ => None
